@@ -18,3 +18,10 @@ if r['mismatches']:
     sys.exit(1)
 print('setup ok')
 PY
+# extended library models: native vs MIR-executor comparison of the API zoo (zoo/README.md); a mismatch means the models
+# are wrong -> fail; a zoo that does not build against this tree (changed type definitions) is only reported
+python3-vt zoo/zoo_check.py
+rc=$?
+if [ $rc -eq 1 ]; then echo "SETUP FAILED: API zoo mismatch (library models disagree with the real std/petgraph)"; exit 1; fi
+[ $rc -ne 0 ] && echo "setup: API zoo could not be built against this tree (not fatal)"
+exit 0
